@@ -683,10 +683,16 @@ def build(spec, env):
                     v[tag] = 1
         return [f]
     if s == 'user':
+        f = build_user(spec, env)
+        env.setdefault('objs', {})[spec['marker']] = f
         if spec['param'] == 'package':
-            return [build_user(spec, env)]
+            return [f]
         # the marker is written into a declared field, so that the pipeline stays well-typed
-        return [DF.add_field(spec['marker'], 'integer'), build_user(spec, env)]
+        return [DF.add_field(spec['marker'], 'integer'), f]
+    if s == 'user_again':
+        # the SAME callable object as an earlier user step of this chain, given as a link a second time
+        f = env.get('objs', {}).get(spec['marker'])
+        return [f if f is not None else build_user(spec, env)]
     if s == 'iterable':
         return [[{'_id': r[0], 'a': r[1]} for r in spec['rows']]]
     if s == 'sources':
